@@ -162,6 +162,57 @@ Definition create (f : tbi) : Res (list byte) :=
 Definition create_write_reload (f : tbi) (ws : list wop) : Res tbi :=
   do h <- create f; read_header (apply_writes (t_reclen f) h ws).
 
+(** * histories over several year files
+    catalog.AddFile (catalog.go:355): the first record of another year creates that year's file from a
+    deep copy of an existing file's TimeBucketInfo (GetDeepCopy, metadata.go:171) with Year := the new
+    year, through newTimeBucketInfoFromTemplate -> WriteHeader (no CheckStorable there).  All in-memory
+    infos of one bucket carry the created schema, so the new header is [encode_header (set_year f y)].
+    After a restart the catalog reports the LATEST year file's header (GetLatestYearFile: maximal year). *)
+Definition set_year (f : tbi) (y : Z) : tbi :=
+  mktbi (t_version f) (t_descr f) y (t_tf f) (t_rectype f) (t_nelems f) (t_reclen f) (t_names f) (t_types f).
+
+Definition files := list (Z * list byte).        (* year -> header region of <year>.bin *)
+
+Fixpoint flookup (y : Z) (st : files) : option (list byte) :=
+  match st with [] => None | (y', h) :: r => if Z.eqb y y' then Some h else flookup y r end.
+Fixpoint fset (y : Z) (h : list byte) (st : files) : files :=
+  match st with
+  | [] => [(y, h)]
+  | (y', h') :: r => if Z.eqb y y' then (y', h) :: r else (y', h') :: fset y h r
+  end.
+
+(** one record of year [y]: WriteRecords adds the year file when it is missing, then the primary write *)
+Definition ystep (f : tbi) (st : files) (w : Z * wop) : Res files :=
+  let (y, op) := w in
+  match flookup y st with
+  | Some h => Ok (fset y (apply_write (t_reclen f) h op) st)
+  | None => do h <- encode_header (set_year f y); Ok (fset y (apply_write (t_reclen f) h op) st)
+  end.
+
+Fixpoint yrun (f : tbi) (st : files) (ws : list (Z * wop)) : Res files :=
+  match ws with
+  | [] => Ok st
+  | w :: r => do st' <- ystep f st w; yrun f st' r
+  end.
+
+(** create the bucket (year file of t_year f), then the history *)
+Definition run_history (f : tbi) (ws : list (Z * wop)) : Res files :=
+  do h <- create f; yrun f [(t_year f, h)] ws.
+
+Fixpoint latest (st : files) : option (Z * list byte) :=
+  match st with
+  | [] => None
+  | (y, h) :: r => match latest r with
+                   | Some (y', h') => if (y <? y')%Z then Some (y', h') else Some (y, h)
+                   | None => Some (y, h)
+                   end
+  end.
+
+(** restart: the schema the catalog reports = the header of the latest year file *)
+Definition reload_history (f : tbi) (ws : list (Z * wop)) : Res tbi :=
+  do st <- run_history f ws;
+  match latest st with Some (_, h) => read_header h | None => Rejected end.
+
 (** * guards *)
 (** a name / description survives copy-into-fixed-array + Trim *)
 Definition field_ok (k : nat) (s : list byte) : bool := (length s <=? k)%nat && bytes_eqb (trim s) s.
@@ -190,6 +241,9 @@ Definition schema_dom (tf : Z) (descr : list byte) (year : Z) (dsv : list (list 
 (** no write at index 0 (the daily Jan-1 slot); indices bounded so that the int64 offset cannot wrap *)
 Definition writes_ok (ws : list wop) : bool :=
   forallb (fun w => (1 <=? wop_idx w)%Z && (wop_idx w <? 2 ^ 31)%Z) ws.
+
+Definition years_ok (ws : list (Z * wop)) : bool :=
+  forallb (fun w => in_ityb I16 (fst w)) ws && writes_ok (map snd ws).
 
 Definition tbi_eqb (a b : tbi) : bool :=
   Z.eqb (t_version a) (t_version b) && bytes_eqb (t_descr a) (t_descr b) && Z.eqb (t_year a) (t_year b)
